@@ -63,6 +63,7 @@ type Contract struct {
 	LemmaList    []string             // if HasLemmaList: only these lemmas are added as axioms
 	HasLemmaList bool
 	FreshOnly    []string // heaps (names or prefix*) in which only objects allocated during the call change, whatever else the function does
+	Binds        map[string]string // name -> callee: the name denotes the result of the call to that callee (independent of local variable names)
 	NoCalls      []string // callees (plain or Interface.Method names) this function must not call itself
 	SuffixSplit  bool   // case split over bounded-depth path suffixes when the function has too many whole paths
 	StepFrames   bool   // prove (and then use) the frame relative to function entry after every call (long call chains)
@@ -132,7 +133,7 @@ type ContractSet struct {
 var clauseKeywords = map[string]bool{
 	"func": true, "spec": true, "extern": true, "iface": true, "closure": true, "callback": true, "requires": true, "ensures": true,
 	"loop": true, "modifies": true, "inline": true, "noinline": true, "trusted": true, "pure": true, "lemma": true,
-	"axiom": true, "ghost": true, "type": true, "opaque": true, "noreturn": true, "replay": true, "recspec": true, "uspec": true, "uses": true, "nilable": true, "implements": true, "closedworld": true, "stepframes": true, "suffixsplit": true, "freshonly": true, "nocall": true, "typedheap": true, "lemmas": true, "immutable": true, "atcall": true,
+	"axiom": true, "ghost": true, "type": true, "opaque": true, "noreturn": true, "replay": true, "recspec": true, "uspec": true, "uses": true, "nilable": true, "implements": true, "closedworld": true, "stepframes": true, "suffixsplit": true, "bind": true, "freshonly": true, "nocall": true, "typedheap": true, "lemmas": true, "immutable": true, "atcall": true,
 }
 
 var propsRe = regexp.MustCompile(`^\[((?:C[0-9]+)(?:\s*,\s*C[0-9]+)*)\]\s*`)
@@ -428,6 +429,15 @@ func (cs *ContractSet) LoadFile(path, pkgPath string) {
 		case "stepframes":
 			if cur != nil {
 				cur.StepFrames = true
+			}
+		case "bind":
+			if cur != nil {
+				if i := strings.Index(rest, "="); i > 0 {
+					if cur.Binds == nil {
+						cur.Binds = map[string]string{}
+					}
+					cur.Binds[strings.TrimSpace(rest[:i])] = strings.TrimSpace(rest[i+1:])
+				}
 			}
 		case "suffixsplit":
 			if cur != nil {
